@@ -233,7 +233,7 @@ func cmdCheck(args []string) int {
 	validated := 0
 	var violLines []string
 	if !*noReplay {
-		rr := nativeReplay(*repo, *hdir, id, R)
+		rr := nativeReplay(*repo, *hdir, id, R, cfg.Tier)
 		confirmed = rr.confirmed
 		unreproduced = rr.unreproduced
 		validated = rr.validated
@@ -454,6 +454,7 @@ type replayResult struct {
 }
 
 type vectorFile struct {
+	Tier    int            `json:"tier"`
 	Vectors []nativeVector `json:"vectors"`
 }
 
@@ -465,9 +466,10 @@ type nativeVector struct {
 	Msg      string        `json:"msg"`
 }
 
-func nativeReplay(repo, hdir, id string, R *Results) replayResult {
+func nativeReplay(repo, hdir, id string, R *Results, tier int) replayResult {
 	var rr replayResult
 	var vf vectorFile
+	vf.Tier = tier
 	for _, v := range R.Violations {
 		vf.Vectors = append(vf.Vectors, nativeVector{Harness: v.Harness, Inputs: v.Inputs, Expect: "fail", Msg: v.Msg})
 	}
@@ -489,7 +491,7 @@ func nativeReplay(repo, hdir, id string, R *Results) replayResult {
 		if i < nViol {
 			if res.status == "ASSERTFAIL" || res.status == "PANIC" {
 				path := filepath.Join(verifDir, "replays", fmt.Sprintf("%s-%s-%d.json", id, v.Harness, i))
-				b, _ := json.MarshalIndent(vectorFile{Vectors: []nativeVector{v}}, "", " ")
+				b, _ := json.MarshalIndent(vectorFile{Tier: vf.Tier, Vectors: []nativeVector{v}}, "", " ")
 				os.WriteFile(path, b, 0o644)
 				rr.confirmed++
 				rr.lines = append(rr.lines, fmt.Sprintf("VIOLATION property=%s replay=%s", id, path))
@@ -497,7 +499,7 @@ func nativeReplay(repo, hdir, id string, R *Results) replayResult {
 			} else {
 				rr.unreproduced++
 				path := filepath.Join(verifDir, "replays", fmt.Sprintf("%s-%s-%d.unreproduced.json", id, v.Harness, i))
-				b, _ := json.MarshalIndent(vectorFile{Vectors: []nativeVector{v}}, "", " ")
+				b, _ := json.MarshalIndent(vectorFile{Tier: vf.Tier, Vectors: []nativeVector{v}}, "", " ")
 				os.WriteFile(path, b, 0o644)
 				rr.problems = append(rr.problems, fmt.Sprintf("UNREPRODUCED counterexample for %s %q (native: %s %s) saved as %s — encoding or stub too loose", v.Harness, v.Msg, res.status, res.msg, path))
 			}
